@@ -7,19 +7,22 @@ from gen import slivermap
 
 ID = "C02"
 GENERATORS = [slivermap.generate]
-LEAN_MODULES = ["FimVerif.Proofs.C02"]
+LEAN_MODULES = ["FimVerif.Proofs.C02", "FimVerif.Proofs.Lemmas.C02Codec"]
 P = "FimVerif.C02."
 THEOREMS = [P + t for t in (
     "tables_ok", "props_roundtrip_partial", "props_roundtrip_counterexample", "settable_rebuilt",
     "set_get", "set_frame", "unset_get", "unset_identity_rejected", "unset_frame",
     "unset_table_ok_partial", "unset_counterexample", "dict_roundtrip_partial", "image_join_split",
-    "image_type_comma_counterexample", "graph_roundtrip_leaf_partial")]
+    "image_type_comma_counterexample", "graph_roundtrip_partial", "graph_roundtrip_component_partial",
+    "graph_children_perm", "rowLaw_of_roundTrips", "rowLaw_jsonfield")]
 TRUSTED_BASE = [
     "gen/slivermap.py: AST patterns of the *_sliver_to_graph_properties_dict / *_from_graph_properties_dict family, "
     "SLIVER_PROPERTY_TO_GRAPH, the setters of the sliver classes; dynamic probes for absent-property decoding, None-tolerant setters, enum resolution",
-    "Model/Sliver.lean graph path (addSliver / buildDeep on a node list with relationships; neighbour order abstracted by sorting children): differential only, no theorem",
     "Model/Sliver.lean `concrete` codecs (objects represented by their to_json text, json.dumps/loads of safe strings, ',' join/split): differential only",
-    "the C03 codecs (to_json/from_json, JSONData, Tags, Delegations, Gateway) enter the theorems only through the explicit per-field hypothesis `FieldLaw`",
+    "codec hypothesis `FieldLaw`: discharged in Lean for the seven JSONField classes from C03.lossless (rowLaw_jsonfield, for any value model that carries "
+    "C03's encode/decode) and for the ImageRef text format (image_join_split); it remains an explicit per-value hypothesis for Delegations (C12), Tags, "
+    "Gateway, ERO/PathInfo, MaintenanceInfo, JSONData and json.dumps/loads of node_map / stitch_node, all exercised differentially",
+    "Model/Sliver.lean graph store: per-NodeID node list and adjacency; the existence check of the parent in add_link and the set order of neighbours are not modelled",
     "CPython json.dumps/json.loads in JSONSliver (string-valued dictionaries)",
 ]
 ASSUMPTIONS = [
@@ -367,7 +370,7 @@ def gen_cases(ctx, rng, n, res=None):
         cases.append(gen_tree(rng, kind, [0], 0, 0.0, res))
         cases.append(gen_tree(rng, kind, [0], 0, 1.0, res))
         for k in settable(kind):            # one property at a time next to the name
-            for rep in range(2):
+            for rep in range(ctx.scale(1, 2)):
                 d = gen_value(rng, kind, k, 1)
                 if usable(d):
                     t = gen_tree(rng, kind, [0], 0, 0.0, res)
@@ -542,7 +545,7 @@ PATHS = {"props": lambda t: impl_props(t)[1], "dict": lambda t: path_dict(t)[1],
 
 def correspondence(ctx, res):
     rng = ctx.sub_rng("corr")
-    cases = load_corpus("tree") + gen_cases(ctx, rng, ctx.scale(150, 1500), res)
+    cases = load_corpus("tree") + gen_cases(ctx, rng, ctx.scale(60, 1500), res)
     reqs, impl, meta = [], [], []
     for t in cases:
         try:
@@ -872,7 +875,7 @@ def load_corpus(what):
 
 def oracle(ctx, res, n=None):
     rng = ctx.sub_rng("oracle")
-    cases = load_corpus("tree") + gen_cases(ctx, rng, n or ctx.scale(300, 3000), res)
+    cases = load_corpus("tree") + gen_cases(ctx, rng, n or ctx.scale(150, 3000), res)
     for t in cases:
         res.evaluations += 1
         nn, d, p = tree_stats(t)
@@ -881,7 +884,7 @@ def oracle(ctx, res, n=None):
         res.count("kind:" + t["k"])
         res.count("depth:%d" % d)
         check_tree(t, res)
-    for case in load_corpus("elem") + gen_elem_cases(ctx, ctx.sub_rng("oracle-elem"), ctx.scale(2, 12)):
+    for case in load_corpus("elem") + gen_elem_cases(ctx, ctx.sub_rng("oracle-elem"), ctx.scale(1, 12)):
         res.evaluations += len(case["elem"])
         for tr in case["elem"]:
             res.nontrivial.add(canon(tr))
